@@ -9,7 +9,7 @@
    operations, any texts, separators, indexes; the script did not stop with an error).
    [view] = what a program can observe: ($0, the fields after forcing the lazy split, NF). *)
 From Verif Require Import Lib.Base Lib.Dyadic Lib.Utf8 Lib.Regex Gen.Consts Model.Fields
-  Proofs.FieldsSplit Proofs.FieldsInv Proofs.FieldsSpec Proofs.FieldsRegex.
+  Proofs.FieldsSplit Proofs.FieldsInv Proofs.FieldsSpec Proofs.FieldsRegex Proofs.FieldsObs.
 
 Definition engine_ok (rx : Type) (am : rx -> bytes -> list (Z * Z)) : Prop :=
   forall r s, matches_sorted 0 (zlen s) (am r s).
@@ -64,6 +64,24 @@ Theorem C06_viewall_value : forall rx am s s' w,
   exec_op rx am s (ViewAll rx) = Ok (s', w) -> exists l v fl, view rx am s = Ok (l, fl, v) /\ w = OAll v fl.
 Proof. exact viewall_returns_view. Qed.
 Print Assumptions C06_viewall_value.
+
+(* Reads are invisible for ever: deleting a read from (or inserting it into) a script changes
+   nothing the rest of the script outputs nor how it ends -- for every continuation that
+   does not change RS or INPUTMODE.  (No hypothesis on the regex engine at all.) *)
+Theorem C06_reads_invisible : forall rx am s o s' w ops,
+  is_read_op rx o = true -> exec_op rx am s o = Ok (s', w) ->
+  forallb (keeps_split_settings rx) ops = true ->
+  fst (trace rx am ops s') = fst (trace rx am ops s) /\
+  same_end rx am (snd (trace rx am ops s')) (snd (trace rx am ops s)).
+Proof. exact reads_invisible. Qed.
+Print Assumptions C06_reads_invisible.
+
+(* Outside the quantifier of the property (RS changes), recorded as an observation: the lazy
+   split consults the CURRENT RS / INPUTMODE, so with an RS change in the continuation a
+   read is visible: $0="a,b<NL>c" (FS=","), [x=$1;] RS=""; NF gives 2 with the read, 3 without *)
+Theorem C06_reads_invisible_rs_refuted : ~ reads_invisible_full_statement.
+Proof. exact reads_invisible_rs_refuted. Qed.
+Print Assumptions C06_reads_invisible_rs_refuted.
 
 (* reads, FS, OFS and OUTPUTMODE changes leave the current record as it is: in particular a
    change of FS does not re-split it (FS is saved when the record is set) *)
